@@ -320,7 +320,7 @@ def search(ctx, broken, seeds):
 
     rng = ctx.rng
     fast = ["sha256_crypt", "pbkdf2_sha256", "md5_crypt", "des_crypt", "phpass", "ldap_md5", "sha1_crypt"]
-    for _ in range(150 if not ctx.thorough else 1500):
+    for _ in range(80 if not ctx.thorough else 1500):
         schemes = rng.sample(fast, rng.randrange(1, 5))
         kw = {"schemes": schemes}
         if rng.random() < 0.5:
@@ -328,7 +328,7 @@ def search(ctx, broken, seeds):
         win = {}
         for s in schemes:
             h = registry.get_crypt_handler(s)
-            if "rounds" in h.setting_kwds and rng.random() < 0.7:
+            if "rounds" in h.setting_kwds:
                 lo = h.min_rounds
                 if h.rounds_cost == "log2":
                     a = rng.randrange(lo, lo + 3); b = rng.randrange(a, a + 3); d = rng.randrange(a, b + 1)
